@@ -63,6 +63,16 @@ def Matrix.reshape (m : Matrix α) (s : Shape) : M (Except Error Unit × Matrix 
     if m.data.size ≠ n then pure (.error .sizeMismatch, m)
     else pure (.ok (), { m with shape := sh })
 
+/-- the decision `reshape` takes, on the element count alone (usable for matrices of zero-sized
+elements whose count no array can reach): the new axis shape, or `SizeMismatch` -/
+def reshapeDecision (size : Nat) (s : Shape) (o : Order) : M (Except Error AxisShape) := do
+  let sh ← Gen.Shape.try_to_axis_shape s o
+  match sh with
+  | .error _ => pure (.error .sizeMismatch)
+  | .ok sh => do
+    let n ← Gen.AxisShape.size sh
+    if size ≠ n then pure (.error .sizeMismatch) else pure (.ok sh)
+
 /-- `Vec::resize_with(n, default)` on the data (effect-free default) -/
 def resizeData (d : Array α) (n : Nat) (dflt : α) : Array α :=
   if n ≤ d.size then d.extract 0 n else d ++ Array.replicate (n - d.size) dflt
